@@ -321,15 +321,20 @@ def oracle_directed(rng):
                         return ('after the same function was relaxed over R^2, its %s bound over the box [1,2]^2 is %r; the minimum over the box is '
                                 '%r and SAGE is exact for posynomials' % (form, r1, lo_box))
             # (2) invariance under an invertible linear map that makes the rows nearly parallel
-            rows = np.array([[0.0, 1.0], [4e-6, 1.0], [8e-6, 1.0], [0.0, 0.0]])
-            cc = np.array([1.0, -1.5, 1.0, 0.1])
+            rows = np.array([[0.0, 1.0], [4e-6, 1.0], [8e-6, 1.0], [0.0, -1.0]])
+            cc = np.array([0.1, 0.1, 5.0, 1.0])          # a posynomial with infimum 2 sqrt(0.1)
             T = np.array([[1.0, 0.0], [1.0, 1.0]])
+            inf_f = 2 * math.sqrt(0.1)
             f0 = so.Signomial(rows, cc)
             f1 = so.Signomial(rows @ T, cc)
             for form in ('primal', 'dual'):
                 a, b = ss.sig_relaxation(f0, form=form).solve(verbose=False), ss.sig_relaxation(f1, form=form).solve(verbose=False)
-                if a[0] == b[0] == 'solved' and not (a[1] == b[1] or close(a[1], b[1], 1e-3)):
-                    return ('the %s bound of the signomial with exponent rows %s changes from %r to %r under the invertible linear change of '
+                for nm, r in (('', a), (' after the linear change of variables alpha -> alpha @ [[1,0],[1,1]]', b)):
+                    if r[0] == 'solved' and math.isfinite(r[1]) and r[1] > inf_f + 5e-3:
+                        return ('the %s bound %r of the posynomial with exponent rows %s%s exceeds its infimum %r'
+                                % (form, r[1], rows.tolist(), nm, inf_f))
+                if a[0] == b[0] == 'solved' and math.isfinite(a[1]) and math.isfinite(b[1]) and abs(a[1] - b[1]) > 5e-3:
+                    return ('the %s bound of the posynomial with exponent rows %s changes from %r to %r under the invertible linear change of '
                             'variables alpha -> alpha @ %s' % (form, rows.tolist(), a[1], b[1], T.tolist()))
             # (3) kernel_basis=True, exponents (30, 0) and (-30, 2e-5): the bound of a posynomial with infimum 0 stays 0
             fk = so.Signomial(np.array([[0.0, 0.0], [30.0, 0.0], [-30.0, 2e-5]]), np.array([-2.0, 1.0, 1.0]))
